@@ -564,10 +564,65 @@ def gen_cases(tier, seed):
         dg.add(w)
     for j, w in enumerate(sorted(dg)):
         cases.append(('udp', {'wire': w.hex(), 'app': [None, 'v2', 'v1'][j % 3]}, True))
+    for fe in ('v2', 'v1'):
+        for end in ('timeout', 'cancel'):
+            cases.append(('late', {'fe': fe, 'end': end}, True))
     return cases
 
 
-RUNNERS = {'frame': run_framing, 'recv': run_receive, 'udp': run_datagram}
+def run_late(inp):
+    """inp: {'fe', 'end': 'timeout'|'cancel'}: a Data arrives for a pending Interest whose validator is still working when the
+    Interest times out (or is cancelled by its caller); when the validator finally answers nothing may blow up in the
+    background, and reception keeps working."""
+    fe_tag, end = inp['fe'], inp['end']
+    out = []
+
+    def viol(key, what):
+        out.append(('C06:%s:%s' % (fe_tag, key), what))
+
+    async def main(case):
+        fe = R.FRONTENDS[fe_tag]()
+        fe.attach(R.name_wire(H_PREFIX), 'H')
+        late = case.spawn(fe.express(R.name_wire([P, R.comp('late')]), lifetime=40, slow_validator=0.15))
+        other = case.spawn(fe.express(R.name_wire(U_NAME), lifetime=4000))
+        await asyncio.sleep(0)
+        try:
+            await fe.app._receive(6, R.data_wire([P, R.comp('late')], b'late-content'))
+        except Exception as e:
+            viol('_receive:%s' % R.exc_name(e), 'Data for a pending Interest let %s escape' % R.exc_name(e))
+        if end == 'cancel':
+            await asyncio.sleep(0.02)
+            late.cancel()
+        await asyncio.sleep(0.3)              # the deadline passes, then the validator answers
+        await case.settle()
+        for be in case.collect():
+            viol('background:%s:%s' % (be[0], be[1].rsplit('.', 1)[-1] or 'loop'),
+                 'validator answers after the Interest %s: background error %s at %s: %s' % (
+                     (('timed out' if end == 'timeout' else 'was cancelled'),) + tuple(be)))
+        case.background_errors.clear()
+        try:
+            await fe.app._receive(6, U_DATA)
+            await case.settle()
+            if not other.done() or fe.result_view(other.result())[1] != b'unrelated-content':
+                viol('unrelated-pending-damaged', 'afterwards the unrelated pending Interest did not complete with its Data')
+        except Exception as e:
+            viol('afterwards:%s' % R.exc_name(e), 'valid packet afterwards raised %s' % R.exc_name(e))
+        for t in (late, other):
+            if not t.done():
+                t.cancel()
+        await asyncio.gather(late, other, return_exceptions=True)
+
+    case = R.CaseLoop()
+    try:
+        case.run(main)
+    except Exception as e:
+        viol('harness:%s' % R.exc_name(e), '%s (%s) at %s' % (R.exc_name(e), e, R.where(e)))
+    for be in case.background_errors:
+        viol('background:%s:%s' % (be[0], be[1].rsplit('.', 1)[-1] or 'loop'), 'background error %s at %s: %s' % be)
+    return out
+
+
+RUNNERS = {'frame': run_framing, 'recv': run_receive, 'udp': run_datagram, 'late': run_late}
 
 
 def run(tier: str, seed: int, shard):
